@@ -63,6 +63,19 @@ def found(atoms):
     return bonds, problems
 
 
+def criterion(e1, e2, d):
+    """The element-dependent distance criterion as the model defines it today (DESIGN section 2): a hydrogen and a heavy atom
+    are bonded below 1.5 A, two heavy atoms below 2.0 A, two sulfurs below 2.5 A, two hydrogens never."""
+    nh = (e1 == 'H') + (e2 == 'H')
+    if nh == 2:
+        return False
+    if nh == 1:
+        return d < 1.5
+    if e1 == 'S' and e2 == 'S':
+        return d < 2.5
+    return d < 2.0
+
+
 def judge(bm, spec, acc, case=None):
     """spec = list of (element, x, y, z).  Runs the real cell list and the reference."""
     atoms = [mk(*s) for s in spec]
@@ -81,6 +94,14 @@ def judge(bm, spec, acc, case=None):
                   'bonds %s, all-pairs rule gives %s (neg=%s)' % (sorted(got), sorted(exp), neg)))
     for p in set(problems):
         v.append((p, p))
+    # the pair criterion itself, stated independently (two-atom cases, away from the thresholds by at least 0.0004 A)
+    if len(spec) == 2:
+        d = math.sqrt(sum((spec[0][k] - spec[1][k]) ** 2 for k in (1, 2, 3)))
+        if all(abs(d - t) > 4e-4 for t in THRESH):
+            want = criterion(spec[0][0], spec[1][0], d)
+            if bool(exp) != want:
+                v.append(('pair-criterion-differs/%s-%s' % tuple(sorted((spec[0][0], spec[1][0]))),
+                          '%s-%s at %.4f A: program says %s, criterion says %s' % (spec[0][0], spec[1][0], d, bool(exp), want)))
     # disulfide flags
     for (i, j) in exp:
         if spec[i][0] == 'S' and spec[j][0] == 'S':
